@@ -181,7 +181,12 @@ func lockStepCells() []RPCCase {
 			for _, method := range []string{"SS", "Bidi"} {
 				in, o := shapeIO(method, 5, 2, 3)
 				proto := map[string]string{"h1-http": "http-json", "h2c-http": "http-json", "grpc": "grpc", "h1-web": "web"}[client]
-				out = append(out, RPCCase{Part: "rpc", Target: target, Proto: proto, Method: method, In: in, Out: o, LockStep: true, Client: client})
+				c := RPCCase{Part: "rpc", Target: target, Proto: proto, Method: method, In: in, Out: o, LockStep: true, Client: client}
+				// HTTP/1 is half-duplex also for larking's forwarder, which
+				// reads the client while it writes the back-end's replies: the
+				// back-end waits for the forwarded end of the request first
+				c.ToEOF = target == "proxy" && method == "Bidi" && strings.HasPrefix(client, "h1")
+				out = append(out, c)
 			}
 		}
 	}
